@@ -604,6 +604,10 @@ impl Kanata {
             }
         };
         update_kbd_out(&cfg.options, &self.kbd_out)?;
+        // Fallible steps come before the first assignment so that a failure leaves the running
+        // configuration untouched (reload is all-or-nothing).
+        #[cfg(target_os = "linux")]
+        Kanata::set_repeat_rate(cfg.options.linux_opts.linux_x11_repeat_delay_rate)?;
         #[cfg(target_os = "windows")]
         set_win_altgr_behaviour(cfg.options.windows_opts.windows_altgr);
         self.sequence_backtrack_modcancel = cfg.options.sequence_backtrack_modcancel;
@@ -652,8 +656,6 @@ impl Kanata {
         }
 
         *MAPPED_KEYS.lock() = cfg.mapped_keys;
-        #[cfg(target_os = "linux")]
-        Kanata::set_repeat_rate(cfg.options.linux_opts.linux_x11_repeat_delay_rate)?;
         log::info!("Live reload successful");
         #[cfg(feature = "tcp_server")]
         if let Some(tx) = _tx {
